@@ -94,7 +94,7 @@ func c07Run(c *fw.Ctx) {
 	rootLists := [][]string{{"sso.test"}, {".sso.test", "other.test"}}
 	sigs := []string{"valid", "valid-for-another-uri", "wrong-secret", "missing", "not-base64"}
 	tss := []string{"now", "-299s", "-301s", "+1h", "non-numeric", "missing"}
-	endpoints := []string{"sign_in/no-cookie", "sign_in/cookie", "sign_out/GET/cookie", "sign_out/GET/no-cookie", "sign_out/POST/cookie", "sign_out/POST/no-cookie", "start/nested", "start/outer", "callback/state"}
+	endpoints := []string{"sign_in/no-cookie", "sign_in/cookie", "sign_out/GET/cookie", "sign_out/GET/no-cookie", "sign_out/POST/cookie", "sign_out/POST/no-cookie", "start/nested", "start/outer", "callback/state", "sign_out-split/POST/cookie", "sign_out-split/POST/no-cookie", "callback-error/state"}
 	if !c.Thorough() {
 		tss = []string{"now", "-301s", "+1h", "missing"}
 	}
@@ -151,8 +151,33 @@ func c07Run(c *fw.Ctx) {
 		hdr := http.Header{}
 		method := "GET"
 		var target string
+		var postBody []byte
 		parts := strings.Split(ep, "/")
 		switch parts[0] {
+		case "sign_out-split":
+			// the URI under test is in the QUERY; a correctly signed, fresh, in-domain URI is in the form body
+			good := "https://app.sso.test/"
+			body := url.Values{"redirect_uri": {good}, "sig": {harness.Sign(good, now.Unix(), harness.ClientSecret)}, "ts": {fmt.Sprint(now.Unix())}}
+			q.Set("redirect_uri", uri)
+			if sig != "" {
+				q.Set("sig", sig)
+			}
+			if ts != "" {
+				q.Set("ts", ts)
+			}
+			method = "POST"
+			hdr.Set("Content-Type", "application/x-www-form-urlencoded")
+			if parts[len(parts)-1] == "cookie" {
+				hdr.Set("Cookie", cookie)
+			}
+			target = "/" + e.Slug + "/sign_out?" + q.Encode()
+			postBody = []byte(body.Encode())
+		case "callback-error":
+			nonce := "0123456789abcdef"
+			q.Set("error", "access_denied")
+			q.Set("state", base64.URLEncoding.EncodeToString([]byte(nonce+":"+uri)))
+			hdr.Set("Cookie", e.CookieName+"_csrf="+nonce)
+			target = "/" + e.Slug + "/callback?" + q.Encode()
 		case "sign_in", "sign_out":
 			q.Set("redirect_uri", uri)
 			if sig != "" {
@@ -204,7 +229,7 @@ func c07Run(c *fw.Ctx) {
 			hdr.Set("Cookie", e.CookieName+"_csrf="+nonce)
 			target = "/" + e.Slug + "/callback?" + q.Encode()
 		}
-		resp := e.Do(harness.NewRequest(method, target, harness.AuthHost, hdr, nil))
+		resp := e.Do(harness.NewRequest(method, target, harness.AuthHost, hdr, postBody))
 		if !owned {
 			return
 		}
@@ -237,10 +262,18 @@ func c07Run(c *fw.Ctx) {
 			default:
 				outcome = "redirect"
 				ok, h1, h2 := bothInDomain(resp.Location, base, roots)
+				if parts[0] == "sign_out-split" && resp.Location == "https://app.sso.test/" {
+					// the signed URI from the body: a legitimate sign-out redirect
+					c.Res.Count("positive_redirects_in_domain", 1)
+					break
+				}
 				if !ok {
 					viol("redirect-out-of-domain/"+parts[0]+"/"+uriClass(uri), fmt.Sprintf("%s redirected the browser to %q, which resolves to %q (RFC 3986) / %q (browser) outside %v", ep, resp.Location, h1, h2, roots))
 				}
 				hasCode := err == nil && loc.Query().Get("code") != ""
+				if parts[0] == "sign_out-split" {
+					viol("redirect-to-unsigned-parameter/"+uriClass(uri), fmt.Sprintf("sign-out redirected to %q taken from the query although the signed URI was the one in the body", resp.Location))
+				}
 				if (hasCode || parts[0] == "sign_out" || parts[0] == "sign_in") && !signedOK {
 					viol("redirect-without-valid-signature/"+parts[0]+"/sig="+sigKind+"/ts="+tsKind, fmt.Sprintf("%s redirected (code attached: %v) although the URI was not signed with a fresh timestamp", ep, hasCode))
 				}
@@ -289,7 +322,7 @@ func init() {
 		Level: "exploration",
 		Rule: "full product on the unmodified NewAuthenticatorMux (Okta provider against a scripted IdP over TLS): URI grammar = scheme {https, http, HTTPS, javascript, none, //} x userinfo {none, in-domain-looking@ (thorough: x:y@)} x host {root, sub.root, other, root as prefix of another domain, look-alike suffix, root with its dot replaced by another character, upper case, trailing dot, with port, IPv6, empty, %2f / backslash / TAB / # / ? inside} x tail {path, query naming another authority (thorough: fragment and path with @)}; " +
 			"root-domain lists {[sso.test], [.sso.test, other.test]}; signature {valid, valid for another URI, wrong secret, missing, not base64}; ts via the virtual clock {now, -301 s, +1 h, missing (thorough: -299 s, non-numeric)}; " +
-			"endpoints: sign_in with/without authenticator cookie, sign_out GET/POST with/without cookie, start with the URI as nested proxy URI and as outer return URI, callback with the URI carried in state. " +
+			"endpoints: sign_in with/without authenticator cookie, sign_out GET/POST with/without cookie, start with the URI as nested proxy URI and as outer return URI, callback with the URI carried in state (also with error=access_denied), sign_out POST with the URI in the query and a correctly signed one in the body. " +
 			"Oracle: every 3xx Location other than the IdP's resolves inside the root domains under both an RFC 3986 and a browser-style reading; a code-carrying redirect, a sign-in/sign-out redirect and the start of an IdP login happen only if an independent HMAC-SHA256 recomputation accepts (uri, sig, ts) with ts <= 300 s old; " +
 			"distinct_nontrivial = distinct (endpoint, URI class, sig, ts, roots, outcome)",
 		Assumptions:    []string{"host names compared case-insensitively and without a trailing dot by the reference (the implementation may be stricter)"},
